@@ -465,6 +465,31 @@ func Extremes() []Item {
 			out = append(out, Item{T: t, Base: t, Pos: "extreme", Vals: vals})
 		}
 	}
+	// pointer-shaped towers: single-field structs around a pointer or map, 1..4 levels - Go keeps
+	// such values directly in the interface data word, which matters when they are marshalled by value
+	for depth := 1; depth <= 4; depth++ {
+		for _, leaf := range []*T{Ptr(L(KInt)), Map(L(KString), L(KInt)), Ptr(S0())} {
+			t := leaf
+			var vals []V
+			switch leaf.K {
+			case KMap:
+				vals = []V{{Nil: true}, {E: []V{{S: "a"}, {U: 1}}}, {E: []V{{S: ""}, {}, {S: "k"}, {U: 7}}}}
+			default:
+				if leaf.Elem.K == KStruct {
+					vals = []V{{Nil: true}, {E: []V{{E: []V{{}, {S: ""}}}}}, {E: []V{{E: []V{{U: 7}, {S: "x"}}}}}}
+				} else {
+					vals = []V{{Nil: true}, {E: []V{{}}}, {E: []V{{U: 7}}}}
+				}
+			}
+			for d := 0; d < depth; d++ {
+				t = Struct(Fld(1, t))
+				for i := range vals {
+					vals[i] = V{E: []V{vals[i]}}
+				}
+			}
+			out = append(out, Item{T: t, Base: leaf, Pos: "extreme", Vals: vals})
+		}
+	}
 	// towers of nested structs / pointer chains / slices of slices
 	for _, depth := range []int{4, 8, 16, 40} {
 		tower := L(KInt)
